@@ -47,7 +47,7 @@ func main() { vlib.Run("C28", run) }
 const perCase = 16
 
 func run(c *vlib.Ctx) {
-	c.Rule("path/uri strata: 16 strings per case from a fragment grammar (lead in, namespace incl. wrong-case/unknown, root = CID in base58/32/36/16upper/64url, CIDv0, peer ID, IPNS name, DNS name, garbage, dots; separators '/', '//', '/./', '/../'; tail segments incl. unicode, '%', NUL, '...', '?', '#'; endings '', '/', '//', '/.', '/..', '/./'); uri stratum wraps them in ipfs|ipns|ipld schemes with mixed case, ':' or '://' or ':///' and foreign schemes. name stratum: one peer ID per key type {ed25519, secp256k1, ecdsa-p256, rsa-2048} in 6 textual forms. distinct = FNV of the literal strings; non-trivial path case = at least one accepted string that cleaning changed, one accepted with a trailing slash and one rejected; non-trivial uri case = at least one accepted URI with an upper-case letter in the scheme and one accepted schemeless ('ipfs:') form; name cases are non-trivial when all four key types were converted")
+	c.Rule("path/uri strata: 16 strings per case from a fragment grammar (lead in, namespace incl. wrong-case/unknown, root = CID in base58/32/36/16upper/64url, CIDv0, peer ID, IPNS name, DNS name, garbage, dots; separators '/', '//', '/./', '/../'; tail segments incl. unicode, '%', NUL, '...', '?', '#'; endings '', '/', '//', '/.', '/..', '/./'); uri stratum wraps them in ipfs|ipns|ipld schemes with mixed case, ':' or '://' or ':///' and foreign schemes. name stratum: one peer ID per key type {ed25519, secp256k1, ecdsa-p256, rsa-2048} in 8 textual forms (base36, /ipns/-prefixed, legacy base58, CIDv1 base32/base58/base16, upper-case base36). distinct = FNV of the literal strings; non-trivial path case = at least one accepted string that cleaning changed, one accepted with a trailing slash and one rejected; non-trivial uri case = at least one accepted URI with an upper-case letter in the scheme and one accepted schemeless ('ipfs:') form; name cases are non-trivial when all four key types were converted")
 	c.Cases("path", c.N(2400, 90000), pathCase)
 	c.Cases("uri", c.N(900, 30000), uriCase)
 	c.Cases("name", c.N(500, 12000), nameCase)
